@@ -75,7 +75,7 @@ dates = st.integers(0, 7).flatmap(lambda i: st.sampled_from([_dt.datetime(2021, 
 dict_keys = st.one_of(
     st.sampled_from(["a", "b", "c", "id", "k k", "", "é"]),
     st.sampled_from(["a", "b", "c", "d", "e"]),
-    st.sampled_from([2, 3, -7, None, b"k", ("t", 2), "...", 2.5, "{x}", "a{", "a.b", "a.name", "%s"]),
+    st.sampled_from([2, 3, -7, None, b"k", ("t", 2), "...", 2.5, "{x}", "a{", "a.b", "a.name", "%s", "first  name", " ", "a\tb", "x\ny"]),
 )
 
 SCALAR_TYPES = ["none", "bool", "int", "float", "str", "bytes", "uuid4", "datetime", "date"]
@@ -535,6 +535,21 @@ def forwarding_class():
         def __substitute__(self, visitor, *, value):
             return self.__class__(self.props.update(inner=self.props.inner.__accept__(visitor, value=value)))
 
+    class FwdOwn(Fwd):
+        """Checks the kind of the value itself - an error of its own, reported at the path it was handed - and
+        forwards everything else."""
+        _NATIVE = {"IntSchema": int, "StrSchema": str, "ListSchema": list, "DictSchema": dict, "FloatSchema": float,
+                   "BytesSchema": bytes}
+
+        def __validate__(self, visitor, *, value, path, **kwargs):
+            self._rec("validate", {"path": path, **kwargs})
+            from d42.validation.errors import TypeValidationError
+            expected = self._NATIVE.get(type(self.props.inner).__name__)
+            if expected is not None and not isinstance(value, expected):
+                return visitor.make_validation_result().add_error(TypeValidationError(path, value, expected))
+            return self.props.inner.__accept__(visitor, value=value, path=path, **kwargs)
+
+    _CUSTOM["own"] = FwdOwn
     _CUSTOM["cls"] = Fwd
     _CUSTOM["sub"] = Fwd2
     _CUSTOM["strict"] = FwdStrict
@@ -578,10 +593,12 @@ def _build(spec, wrap_custom, share):
         s = schema.str
         if "value" in spec:
             s = s(spec["value"])
-        if "pattern" in spec:
+        if "pattern" in spec and "pattern" not in (spec.get("order") or []):
             s = s.regex(spec["pattern"])
         for r in spec.get("order") or [k for k in ("len", "alphabet", "substr") if k in spec]:
-            if r == "len":
+            if r == "pattern":
+                s = s.regex(spec["pattern"])        # (declared after the other constraints)
+            elif r == "len":
                 s = _apply_len(s, spec["len"])
             elif r == "alphabet":
                 s = s.alphabet(spec["alphabet"])
@@ -631,7 +648,8 @@ def _build(spec, wrap_custom, share):
         if not wrap_custom:
             return inner
         forwarding_class()
-        cls = _CUSTOM["strict"] if spec.get("strict") else _CUSTOM["sub"] if spec.get("sub") else _CUSTOM["cls"]
+        cls = _CUSTOM["strict"] if spec.get("strict") else _CUSTOM["sub"] if spec.get("sub") else \
+            _CUSTOM["own"] if spec.get("own") else _CUSTOM["cls"]
         return cls()(inner)
     if t == "or":
         return build(spec["a"], wrap_custom, share) | build(spec["b"], wrap_custom, share)
